@@ -203,6 +203,9 @@ def ctorsOfType (fuel : Nat) (reg : St) (ty : Node) : List Ctor :=
       | _ => [.named "Number"]
     | .mk .tsParen _ [t] => ctorsOfType fuel reg t
     | .mk .tsOptional _ [t] => ctorsOfType fuel reg t
+    -- a rest element of a tuple reached by indexing (`[A, ...B[]][1]`): the values are B's; a rest of anything else: no check
+    | .mk (.other "TsRestType") _ [.mk .tsArray _ [elem]] => ctorsOfType fuel reg elem
+    | .mk (.other "TsRestType") _ _ => [.anyValue]
     | .mk .tsUnion _ [.mk .list _ ts] => ts.foldl (fun acc t => ctorUnion acc (ctorsOfType fuel reg t)) []
     | .mk .tsIntersection _ [.mk .list _ ts] => ts.foldl (fun acc t => ctorUnion acc (ctorsOfType fuel reg t)) []
     | .mk .tsIndexed _ [objT, idxT] =>
